@@ -85,6 +85,10 @@ def def_options(tier, is_root, has_ovld_base, kind=None):
         # a mixin class without the metaclass: one definition, possibly marked (the create_subclass / mixin idiom)
         return [[]] + [[(k, m)] for k in ("int", "str", "list") for m in (False, True)]
     opts = [[]]
+    if kind == "markedroot":
+        # a root whose first definition is marked although there is nothing to extend (the mixin idiom with the
+        # metaclass): an overload of its own definitions that later classes merge implicitly
+        return [[]] + [[(k, True)] for k in ("int", "str")] + [[("str", True), ("wrap", False)], [("int", True), ("str", False)]]
     for k in keys:
         for marked in ((False, True) if not is_root else (False,)):
             opts.append([(k, marked)])
@@ -111,8 +115,9 @@ def programs(tier):
             for kinds in itertools.product(*kinds_opts):
                 opts = []
                 for i in range(n):
-                    o = def_options(tier, not bases[i], True, kinds[i])
-                    if n == 4 or (n == 3 and tier == "quick"):
+                    o = def_options(tier, not bases[i], True, "markedroot" if (not bases[i] and i > 0 and kinds[i] != "plain" and n in (3, 5)) else kinds[i])
+                    marked_root = not bases[i] and i > 0 and kinds[i] != "plain" and n in (3, 5)
+                    if (n == 4 or (n == 3 and tier == "quick")) and not marked_root:
                         o = [d for d in o if len(d) <= 1] if bases[i] == () and i > 0 else o
                         if n == 4:
                             o = [d for d in o if len(d) <= 1]
@@ -224,8 +229,13 @@ def effective_sets(spec):
             if len(ms) == 1 and not defs[0][1]:
                 # a single unmarked definition is an ordinary Python method (nothing to merge, no dispatch)
                 eff[name] = ("plain", ms)
-            elif defs[0][1] or any(m for _, m in defs[1:]):
-                eff[name] = None  # extend_super with nothing to extend
+            elif defs[0][1] and not any(m for _, m in defs[1:]):
+                # marked although there is nothing to extend: an overload of the class's own definitions,
+                # which classes deriving from it merge implicitly (as with marked mixins)
+                eff[name] = ("ovld", _overlay([], ms))
+                flagged[name] = True
+            elif any(m for _, m in defs[1:]):
+                eff[name] = None  # a mark on a later definition only
             else:
                 eff[name] = ("ovld", _overlay([], ms))
             continue
